@@ -37,6 +37,13 @@ rows (multiset; sequence when sort_by_parameter_order was requested); ORM object
 stored rows.  Generated rows never violate two rules at once and SET never writes a
 unique column, so the model does not depend on SQLite's constraint-check order.
 
+Part C (recording fake DBAPI): MySQL / MariaDB ``on_duplicate_key_update`` in its three argument
+forms (dict, kwargs, ordered list of 2-tuples keyed by name or Column) x requested orders that
+differ from the table's column order x assignments that read columns other assignments write,
+VALUES() and MySQL 8 ``AS new`` forms: the statement handed to the driver is parsed back, assignment
+set / order (ordered form) are judged and MySQL's left-to-right evaluation of the rendered
+assignments on an existing row must equal the model.
+
 Part B (recording fake DBAPI, compile level only): PostgreSQL ``on_conflict_do_update``
 and MySQL/MariaDB ``on_duplicate_key_update`` with unique literal values: each SET value
 must be bound to the placeholder that follows its own ``col =`` in the conflict clause,
@@ -60,7 +67,8 @@ META = {
     "exhaustive": {"quick": False, "thorough": False},
     "require": ["rows_conflicted", "rows_updated", "rows_skipped", "rows_inserted", "returning_rows_checked",
                 "mutual_conflicts", "batches_permuted", "fake_set_values_checked", "orm_objects_checked",
-                "uncovered_conflicts_raised", "bound_set_rows", "bound_where_rows", "family_siblings"],
+                "uncovered_conflicts_raised", "bound_set_rows", "bound_where_rows", "family_siblings",
+                "mysql_ondup_rows_modelled", "mysql_ondup_self_referencing_ordered"],
     "assumptions": ["reference model of SQLite UPSERT semantics for single-rule conflicts (calibrated: silent on the unchanged tree)"],
 }
 
@@ -128,6 +136,8 @@ SET_OPTIONS = {
         "exc": (lambda sa, t, ex, L: ex.v, lambda e, p, L: p["v"], None),
         "cat": (lambda sa, t, ex, L: t.c.v + L + ex.v, lambda e, p, L: e["v"] + L + p["v"], "sep"),
         "bind": (lambda sa, t, ex, L: sa.bindparam("bp_v"), lambda e, p, L: p["bp_v"], None),
+        # a SQL function over several bound literals: "fn(?, ?, ...)" inside the SET clause
+        "coalesce": (lambda sa, t, ex, L: sa.func.coalesce(*L), lambda e, p, L: L[0], "strs"),
     },
     "n": {
         "inc": (lambda sa, t, ex, L: t.c.n + L, lambda e, p, L: e["n"] + L, "int"),
@@ -176,6 +186,11 @@ def draw_literal(rng, kind, not_equal=None):
             v = rng.randint(0, 6)
         elif kind == "w":
             v = rng.choice(["w0", "wx", "WL"])
+        elif kind == "strs":
+            # arity: anything from 2 up to the width of a VALUES group of this table (8-10 columns),
+            # half of the time exactly such a width - a placeholder group shaped like the VALUES group
+            arity = rng.choice([8, 9, 10]) if rng.random() < 0.5 else rng.randint(2, 7)
+            v = ["L" + str(rng.randint(0, 10 ** 6)) for _ in range(arity)]
         else:
             return None
         if v != not_equal:
@@ -227,11 +242,9 @@ def vary_clause(rng, cl):
 
 
 def target_for(sa, t, rule, rng, many):
-    """index_elements / index_where for a uniqueness rule.  Guard: a Python literal inside
-    index_where is rendered as a literal_execute parameter (deliberately - SQLite cannot match
-    a partial index through a bound value) and SQLAlchemy documents literal_execute parameters
-    as unusable with executemany (InvalidRequestError); executemany forms therefore spell the
-    index predicate as text / literal_column."""
+    """index_elements / index_where for a uniqueness rule.  The partial-index predicate is spelled
+    as text, with literal_column, or with a plain Python literal (rendered as a literal_execute
+    parameter)."""
     if rule is None:
         return {}
     if rule == "k":
@@ -239,9 +252,7 @@ def target_for(sa, t, rule, rng, many):
     if rule == "ab":
         return {"index_elements": rng.choice([[t.c.a, t.c.b], ["a", "b"]])}
     if rule == "e":
-        iw = [sa.text("flag = 1"), t.c.flag == sa.literal_column("1")]
-        if not many:
-            iw.append(t.c.flag == 1)
+        iw = [sa.text("flag = 1"), t.c.flag == sa.literal_column("1"), t.c.flag == 1]
         return {"index_elements": rng.choice([[t.c.e], ["e"]]), "index_where": rng.choice(iw)}
     if rule == "ls":
         return {"index_elements": [sa.func.lower(t.c.s)]}
@@ -308,6 +319,7 @@ def run(ctx):
     warnings.simplefilter("ignore")
     # a first slice of part B runs up front: a loaded machine cannot starve its counter
     fake_part(ctx, sa, first=True)
+    mysql_ondup_part(ctx, sa, first=True)
     nschemas = ctx.pick({"quick": 50, "thorough": 1400})
     xtype = make_xtype(sa)
     spy = Spy()
@@ -341,6 +353,7 @@ def run(ctx):
             e.dispose()
     ctx.count("batches_permuted", perm.permuted)
     fake_part(ctx, sa, first=False)
+    mysql_ondup_part(ctx, sa, first=False)
 
 
 def drive(ctx, sa, orm, sqlite_dialect, rng, eng, path, t, cls, perm, ps, k):
@@ -585,9 +598,20 @@ def drive(ctx, sa, orm, sqlite_dialect, rng, eng, path, t, cls, perm, ps, k):
         except sa.exc.IntegrityError as e:
             raised = e
         except Exception as e:
-            ctx.violation(f"upsert-raised-{type(e).__name__}", f"{desc} raised {e!r}"[:700], desc)
+            mech = f"upsert-raised-{type(e).__name__}"
+            msg = str(e)
+            if isinstance(e, sa.exc.StatementError) and "'literal_execute' or 'expanding' parameters can't be" in msg:
+                # a Python literal in index_where= is rendered as a literal_execute parameter, which
+                # the execution context refuses for every executemany
+                mech = "index-where-literal-execute-executemany-raises"
+            elif isinstance(e, sa.exc.DBAPIError) and re.search(r"DO UPDATE SET [^\n]*\), \(", getattr(e, "statement", None) or msg):
+                # the multi-row VALUES expansion was also applied to text inside the DO UPDATE clause
+                mech = "insertmanyvalues-values-text-replaced-outside-values-clause"
+            ctx.violation(mech, f"{desc} raised {e!r}"[:900], desc)
             ctx.case(desc, nontrivial=False)
-            return
+            if mech.startswith("upsert-raised-"):
+                return
+            continue      # (statement-shape defects: the transaction was rolled back, table and model unchanged)
 
         expect_error = any(o == "error" for o, _ in outcomes)
         stored = read_table(path, t.name)
@@ -834,3 +858,156 @@ def fake_part(ctx, sa, first):
                     ctx.violation("fake-upsert-excluded-reference", f"{desc}: {c} = {rhs!r}", desc)
         ctx.seen("fake_dialect", desc["fake"])
         ctx.case(desc, nontrivial=True)
+
+
+# --------------------------------------------------------------------------------------
+# Part C: MySQL / MariaDB ON DUPLICATE KEY UPDATE - argument forms x requested orders x
+# self-referencing assignments, judged on the statement the (fake) driver receives
+# --------------------------------------------------------------------------------------
+MY_URLS = ("mysql+pymysql://u:p@h/db", "mysql+mysqldb://u:p@h/db", "mariadb+mariadbconnector://u:p@h/db",
+           "mariadb+pymysql://u:p@h/db")
+
+
+def _eval_rendered(expr, row, inserted, tname, alias_name):
+    """value of a rendered assignment expression: sums of ``VALUES(x)`` / ``new.x`` (the proposed
+    row), ``t.x`` / ``x`` (the existing row *as left by the assignments to its left*) and ints"""
+    total = 0
+    e = expr.strip()
+    while e.startswith("(") and e.endswith(")"):
+        e = e[1:-1].strip()
+    for term in e.split(" + "):
+        term = term.strip().replace("`", "")
+        while term.startswith("("):
+            term = term[1:]
+        while term.count(")") > term.count("("):
+            term = term[:-1]
+        m = re.fullmatch(r"VALUES\((\w+)\)", term)
+        if m is None and alias_name:
+            m = re.fullmatch(rf"{alias_name}\.(\w+)", term)
+        if m:
+            total += inserted[m.group(1)]
+        elif re.fullmatch(r"-?\d+", term):
+            total += int(term)
+        else:
+            m = re.fullmatch(rf"(?:{tname}\.)?(\w+)", term)
+            if not m:
+                raise AssertionError(f"cannot evaluate rendered term {term!r} of {expr!r}")
+            total += row[m.group(1)]
+    return total
+
+
+def mysql_ondup_part(ctx, sa, first):
+    """MySQL evaluates ON DUPLICATE KEY UPDATE assignments left to right; a later assignment sees
+    what an earlier one wrote.  ``on_duplicate_key_update()`` takes a dict, keyword arguments or an
+    ORDERED list of 2-tuples ("ordered as sent").  The statement handed to the driver is parsed
+    back: every requested target is assigned exactly once with the requested expression; for the
+    list form the assignments appear in the requested order; the conflicting row, computed by
+    MySQL's left-to-right rule from the rendered assignments, equals the model computed from the
+    requested assignments (dict / kwargs: only when no assignment reads a column another one
+    writes - their order is not specified)."""
+    from sqlalchemy.dialects import mysql
+
+    from vf.mon.fake_dbapi import recording_engine
+
+    rng = ctx.rng
+    ncases = ctx.pick({"quick": 60, "thorough": 2500})
+    head = 12
+    names = ["a", "b", "c", "d"]
+    for k in (range(head) if first else range(head, ncases)):
+        if not first and not ctx.budget_ok():
+            break
+        url = MY_URLS[(k + ctx.shard) % len(MY_URLS)]
+        alias = url.startswith("mysql") and rng.random() < 0.5
+        table_order = rng.sample(names, len(names))
+        md = sa.MetaData()
+        tname = rng.choice(["readings", "new"])       # (a table called "new" forces the alias name new_1)
+        t = sa.Table(tname, md, sa.Column("id", sa.Integer, primary_key=True, autoincrement=False),
+                     *[sa.Column(c, sa.Integer) for c in table_order])
+        existing = {"id": 1, **{c: rng.randint(1, 99) for c in names}}
+        inserted = {"id": 1, **{c: rng.randint(100, 999) for c in names}}
+        stmt = mysql.insert(t).values(**inserted)
+        targets = rng.sample(names, rng.randint(1, 4))        # the requested order
+        spec, built, twins = [], [], {}
+        for tg in targets:
+            kind = rng.choice(["lit", "ins", "tbl", "tbl", "tbl_plus_ins", "tbl_plus_lit"])
+            y, z, L = rng.choice(names), rng.choice(names), rng.randint(1000, 9999)
+            if kind == "lit":
+                ex, fn, reads = L, (lambda row, L=L: L), []
+            elif kind == "ins":
+                ex, fn, reads = stmt.inserted[y], (lambda row, y=y: inserted[y]), []
+            elif kind == "tbl":
+                ex, fn, reads = t.c[y], (lambda row, y=y: row[y]), [y]
+            elif kind == "tbl_plus_ins":
+                ex, fn, reads = t.c[y] + stmt.inserted[z], (lambda row, y=y, z=z: row[y] + inserted[z]), [y]
+            else:
+                ex, fn, reads = t.c[y] + L, (lambda row, y=y, L=L: row[y] + L), [y]
+            spec.append([tg, kind, y, z, L])
+            built.append((tg, ex))
+            twins[tg] = (fn, reads)
+        # (keys are column key strings, as documented; Column objects as keys of the ordered form
+        # raise ArgumentError on the unchanged tree and are not generated)
+        form = rng.choice(["list", "list", "dict", "kwargs"])
+        alias_name = ("new_1" if tname == "new" else "new") if alias else None
+        if form == "list":
+            stmt = stmt.on_duplicate_key_update(built)
+        elif form == "dict":
+            stmt = stmt.on_duplicate_key_update(dict(built))
+        else:
+            stmt = stmt.on_duplicate_key_update(**dict(built))
+        ordered = form.startswith("list")
+        # order matters when an assignment reads a column that ANOTHER assignment writes
+        self_ref = any(r in targets and r != tg for tg in targets for r in twins[tg][1])
+        desc = {"fake": url.split(":")[0], "alias_form": alias, "table_order": table_order, "form": form,
+                "assignments": spec, "table": tname}
+        eng, fake = recording_engine(url)
+        if alias:
+            eng.dialect._requires_alias_for_on_duplicate_key = True
+        try:
+            with eng.connect() as c:
+                c.execute(stmt)
+        except Exception as e:
+            ctx.violation(f"mysql-ondup-raised-{type(e).__name__}", f"{desc}: {e!r}"[:500], desc)
+            eng.dispose()
+            continue
+        eng.dispose()
+        sts = [(q_, p_) for q_, p_ in fake.statements() if (q_ or "").lstrip().startswith("INSERT")]
+        if len(sts) != 1 or "ON DUPLICATE KEY UPDATE" not in sts[0][0]:
+            ctx.violation("mysql-ondup-clause-missing", f"{desc}: {sts}"[:400], desc)
+            continue
+        sql, params = sts[0]
+        it = iter(params) if not isinstance(params, dict) else None
+        flat = _PH.sub(lambda m: str(params[m.group(1)] if m.group(1) else next(it)), " ".join(sql.split()))
+        tail = flat.split("ON DUPLICATE KEY UPDATE", 1)[1].strip()
+        assigns = [tuple(x.strip() for x in part.split(" = ", 1)) for part in tail.split(", ")]
+        got_targets = [a[0].replace("`", "") for a in assigns]
+        ctx.count("mysql_ondup_statements")
+        if sorted(got_targets) != sorted(targets):
+            ctx.violation("mysql-ondup-assignment-set", f"{desc}: assigned {got_targets} requested {targets}: {tail}", desc)
+            continue
+        if ordered and got_targets != targets:
+            ctx.violation("mysql-ondup-assignment-order-not-as-requested",
+                          f"{desc}: ordered form rendered {got_targets}, requested {targets}: {tail}", desc)
+        # model: requested assignments, left to right on the existing row
+        want = dict(existing)
+        for tg in targets:
+            want[tg] = twins[tg][0](want)
+        got = dict(existing)
+        for (tg_r, ex_r) in assigns:
+            got[tg_r.replace("`", "")] = _eval_rendered(ex_r, got, inserted, tname, alias_name)
+        if ordered or not self_ref:
+            ctx.count("mysql_ondup_rows_modelled")
+            if self_ref:
+                ctx.count("mysql_ondup_self_referencing_ordered")
+            if got != want:
+                ctx.violation("mysql-ondup-row-state-differs-from-model",
+                              f"{desc}: MySQL's left-to-right evaluation of {tail!r} on {existing} gives {got}, the "
+                              f"requested assignments give {want}", desc)
+        else:
+            # unordered forms: each expression, evaluated on the ORIGINAL row, must be the requested one
+            for (tg_r, ex_r) in assigns:
+                tg_r = tg_r.replace("`", "")
+                if _eval_rendered(ex_r, existing, inserted, tname, alias_name) != twins[tg_r][0](existing):
+                    ctx.violation("mysql-ondup-assignment-expression", f"{desc}: {tg_r} = {ex_r}", desc)
+                    break
+        ctx.seen("mysql_ondup_form", f"{form}/{'alias' if alias else 'values'}/{desc['fake']}")
+        ctx.case(desc, nontrivial=len(targets) >= 2)
